@@ -217,6 +217,7 @@ def _run(args, prop, mod, prop_mod, tmpdir, seed, t_start):
         per = 3 if tier == "quick" else 8
         step = max(1, len(vs) // per)
         validate += [(r["id"], w) for w in vs[::step][:per]]
+        validate += [(r["id"] + "#history", w) for w in r.get("seq_probes", [])]
     if not results and not errors:
         errors.append("no harness ran")
     enum_w = getattr(mod, "extra_validation", None)
